@@ -18,6 +18,10 @@ for combo in itertools.product([0, 1], repeat=5):
     VARIANTS.append({"name": "+".join(FLAGS[i][1 + combo[i]] for i in range(5)),
                      "findings": [FLAGS[i][0] for i in range(5) if combo[i] == 0]})
 
+RULE_SEQ = (" family seq: one token string whose exp (or nbf) the driver puts 2 s ahead, the same 8 requests sent before and after that instant "
+            "through the same process (each answer stamped with the side of the instant the clock saw it on; retried when a stamp is on the "
+            "wrong side); family req also carries ACL resources with regular-expression / glob metacharacters (. + ? ( [ | $ \\ { and a * in the "
+            "middle) against dataset names that differ only where the metacharacter would match.")
 RULE = ("family req: (ACL list of the caller, token description, list of requests) sent through the echo instance NewWebService builds "
         "with AUTHORIZATION_MIDDLEWARE=on; ACL lists enumerated from the lattice {exact resource, /*, /datasets/*, sibling} x {read,write} x "
         "{allow,deny} up to 2 entries (all 273 in the thorough tier, all 1-entry lists + a seeded sample in quick), 39 token variants "
@@ -28,7 +32,7 @@ RULE = ("family req: (ACL list of the caller, token description, list of request
         "register/unregister/set-ACL/delete-ACL/restart followed by a restart; family list: GET /datasets as the caller for ACL lists over "
         "{/datasets, /*, /datasets/*, /datasets/secret, /datasets/s*} x {read,write} x {allow,deny} (all lists up to 2 entries in thorough). "
         "A case is non-trivial when the caller is a non-admin "
-        "with a non-empty ACL, the token has a defect, or the history has at least one operation; distinct = distinct case objects")
+        "with a non-empty ACL, the token has a defect, or the history has at least one operation; distinct = distinct case objects") + RULE_SEQ
 TRUSTED = [
     "RSA/JWT cryptography, base64 and JSON decoding are not modelled: the facts the jwt library extracts from a token (signer, alg, "
     "kid, exp/nbf window, aud, iss, sub, roles) are inputs of the model; the driver mints a real token for every fact combination used",
@@ -110,12 +114,54 @@ def persistcase(ops, token=None, reqs=(("GET", "/datasets/secret"), ("POST", "/d
     return {"kind": "persist", "ops": ops, "token": token or T(sub="a"), "reqs": [{"m": m, "p": p} for m, p in reqs]}
 
 
+SEQ_REQS = [("GET", "/datasets/secret"), ("GET", "/datasets/secret/entities"), ("GET", "/jobs"), ("DELETE", "/datasets/other"), ("GET", "/"),
+            ("GET", "/health"), ("GET", "/security/clients"), ("GET", "/nope")]
+
+
+def seqcase(acl, token, bound="exp", reqs=SEQ_REQS):
+    """the same token string before and after its exp (or nbf), which the driver puts 2 s ahead"""
+    return {"kind": "seq", "acl": acl, "noacl": False, "direct": True, "token": dict(token, exp=(900 if bound == "nbf" else 2)),
+            "bound": bound, "reqs": [{"m": m, "p": p} for m, p in reqs]}
+
+
+def seq_cases(tier):
+    out = [seqcase([A("/datasets/*", "read")], TOKENS["valid"]), seqcase([], TOKENS["admin"]),
+           seqcase([A("/datasets/*", "write")], TOKENS["valid"], bound="nbf")]
+    if tier != "quick":
+        out += [seqcase([A("/*", "write")], TOKENS["oauth"]), seqcase([A("/*", "read")], TOKENS["noaudnoiss"]),
+                seqcase([], TOKENS["oauth-admin"]), seqcase([A("/*", "read")], TOKENS["multiaud"], bound="nbf")]
+    return out
+
+
 def listcase(acl, token=None, noacl=False, direct=True):
     return {"kind": "list", "acl": acl, "noacl": noacl, "direct": direct, "token": token or TOKENS["valid"], "reqs": []}
 
 
 LIST_RES = ["/datasets", "/*", "/datasets/*", "/datasets/secret", "/datasets/s*"]
 LIST_RES2 = ["/datasets*", "/datasets/pub.*", "/datasets/other", "/datasets/secretx", "/datasets/core.*"]
+
+# resources whose text means something else when read as a regular expression or a glob: the pattern branch of CheckGranted
+# is a literal prefix test on everything before the final *
+REGEX_RES = ["/datasets/sdb.*", "/datasets/sdb.A*", "/datasets/pub.*", "/datasets/a+*", "/datasets/a+b*", "/datasets/ab?*", "/datasets/a(b*",
+             "/datasets/a(*", "/datasets/[a-z]*", "/datasets/sdb|*", "/datasets/s$*", "/datasets/.*", "/datasets/*/changes*", "/datasets/*/*",
+             "/data.ets/*", "/datasets/sdb\\.*", "/datasets/s.b.*", "^/datasets/*", "/datasets/(sdbx|secret)*", "/datasets/a{2}*", ".*"]
+REGEX_BATTERY = [(m, "/datasets/" + d + sfx) for d in ("sdb.Animal", "sdb2.Secret", "sdbx", "pub.a", "pubxa", "a+b", "aab", "a(b", "secret", "x")
+                 for m, sfx in (("GET", ""), ("GET", "/entities"), ("POST", "/entities"), ("GET", "/changes"), ("DELETE", ""))] + [
+    ("GET", "/datasets"), ("GET", "/jobs"), ("GET", "/jobs/sdb.x"), ("GET", "/content/a+b")]
+
+
+def regex_cases(rng, tier):
+    out = []
+    v = TOKENS["valid"]
+    for i, r in enumerate(REGEX_RES):
+        for act in ("read", "write"):
+            out.append(reqcase([A(r, act)], v, REGEX_BATTERY, direct=(i % 2 == 0)))
+        out.append(listcase([A("/datasets", "read"), A(r, "read")], direct=(i % 2 == 1)))
+        if tier != "quick":
+            out.append(reqcase([A(r, "write", True), A("/datasets/sdb.Animal", "read")], v, REGEX_BATTERY))
+            out.append(listcase([A("/datasets", "read"), A(r, "write"), A("/datasets/secret", "read")]))
+    return out
+
 
 
 def A(res, act="read", deny=False):
@@ -232,6 +278,10 @@ def witness_cases():
         # trailing-* prefix keeps its last character: /datasets/secret/* does not cover the sibling secretx
         reqcase([A("/datasets/secret/*", "write")], v, BATTERY),
         reqcase([A("/job/*", "write")], v, BATTERY),
+        # the text before the final * is a literal prefix, not a regular expression: namespace grant sdb.* vs sdbx / sdb2.Secret
+        reqcase([A("/datasets/sdb.*", "write")], v, REGEX_BATTERY),
+        listcase([A("/datasets", "read"), A("/datasets/sdb.*", "read")]),
+        reqcase([A("/datasets/*/changes*", "read")], v, REGEX_BATTERY),
         # route table
         reqcase([], v, [], sweep=True),
         reqcase([], TOKENS["nohdr"], [], sweep=True),
@@ -306,6 +356,8 @@ def gen(rng, tier):
         out += [reqcase(l, v, BATTERY, direct=True) for l in two[:60]]
         out += token_cases()
         out += adversarial_cases(rng, tier)
+        out += regex_cases(rng, tier)
+        out += seq_cases(tier)
         for _ in range(20):
             out.append(reqcase(rand_acl(rng, rng.range(1, 3)), rng.choice([v, TOKENS["oauth"], TOKENS["noroles"], TOKENS["Admin"]]), BATTERY,
                                direct=rng.chance(1, 2)))
@@ -332,6 +384,8 @@ def gen(rng, tier):
     out += [reqcase(l, v, BATTERY, direct=(i % 5 != 0)) for i, l in enumerate(one + two)]
     out += token_cases()
     out += adversarial_cases(rng, tier)
+    out += regex_cases(rng, tier)
+    out += seq_cases(tier)
     for t in TOKENS.values():
         out.append(reqcase([A("/*", "write")], t, BATTERY, direct=True))
     E2 = entries(EXTRA_RES)
@@ -445,7 +499,14 @@ def term(c, o):
         res = o.get("res") or []
         reqs = vlib.coq_list(["{| q_method := %s; q_path := %s; q_class := %d%%N; q_route := %s |}" % (
             cs(r["m"]), cs(r["p"]), klass(r), cs(r["route"])) for r in res])
-    kind = {"persist": 1, "list": 2}.get(c["kind"], 0)
+    kind = {"persist": 1, "list": 2, "seq": 3}.get(c["kind"], 0)
+    seq = "[]"
+    if kind == 3 and o.get("outcome") == "ok":
+        seq = vlib.coq_list(["(%d%%N, {| q_method := %s; q_path := %s; q_class := %d%%N; q_route := %s |})" % (
+            0 if r["ph"] == 0 else 10, cs(r["m"]), cs(r["p"]), klass(r), cs(r["route"])) for r in res if r.get("ph") != 1])
+        reqs = "[]"
+    elif kind == 3:
+        kind = 0
     acl = "None" if (kind == 1 or c.get("noacl")) else "Some %s" % acl_term(c.get("acl"))
     if kind == 2 and o.get("outcome") == "ok":
         reqs = "[]"
@@ -458,12 +519,14 @@ def term(c, o):
     cfg = '{| cfg_oauth := %s; cfg_aud := [%s; %s]; cfg_iss := [%s; %s] |}' % (
         vlib.coq_bool(o.get("oauth", True)), cs(OAUD), cs(NODE), cs(OISS), cs(NODE))
     return ("{| c_kind := %d%%N; c_cfg := %s; c_acl := %s; c_auth := %s; c_tok := %s; c_facts := %s; c_reqs := %s; c_sweep := %s; "
-            "c_routes := %s; c_ops := %s; o_before := %s; o_after := %s; o_all := %s; o_listed := %s; o_list := %s |}" % (
+            "c_routes := %s; c_ops := %s; o_before := %s; o_after := %s; o_all := %s; o_listed := %s; o_list := %s; c_exp := %s; c_nbf := %s; c_seq := %s |}" % (
                 kind, cfg, acl, cs(auth_of(c["token"])), cs(TOK), facts_term(c["token"]), reqs,
                 vlib.coq_bool(bool(c.get("sweep")) and o.get("outcome") == "ok"),
                 vlib.coq_list(["(%s, %s)" % (cs(r[0]), cs(r[1])) for r in (o.get("routes") or [])]),
                 vlib.coq_list([op_term(x) for x in (c.get("ops") or [])]), snap_term(o.get("before")), snap_term(o.get("after")),
-                vlib.coq_list([cs(x) for x in (o.get("all") or [])]), vlib.coq_list([cs(x) for x in (o.get("listed") or [])]), olist))
+                vlib.coq_list([cs(x) for x in (o.get("all") or [])]), vlib.coq_list([cs(x) for x in (o.get("listed") or [])]), olist,
+                "Some 5%N" if (c["kind"] == "seq" and c.get("bound") != "nbf") else "None",
+                "Some 5%N" if (c["kind"] == "seq" and c.get("bound") == "nbf") else "None", seq))
 
 
 def predict_text(c, o):
@@ -473,7 +536,8 @@ def predict_text(c, o):
          "(fun k => lookup k (mem_acls (restart (cv_init cv) (sec_run (cv_file cv) (cv_init cv) (c_ops c))))))) (c_auth c) (q_method q) (q_path q)) (c_reqs c),\n"
          "  mem_acls (sec_run (cv_file cv) (cv_init cv) (c_ops c)), mem_acls (restart (cv_init cv) (sec_run (cv_file cv) (cv_init cv) (c_ops c)))).\n"
          "Eval vm_compute in (show (hd cfixed all_variants), show cfixed).\n"
-         "Eval vm_compute in (decide current (world_of c (acls_kind0 c)) (c_auth c) \"GET\"%%string \"/datasets\"%%string, predicted_list DenySkip c, predicted_list DenyWins c).\n" % t)
+         "Eval vm_compute in (decide current (world_of c (acls_kind0 c)) (c_auth c) \"GET\"%%string \"/datasets\"%%string, predicted_list DenySkip c, predicted_list DenyWins c).\n"
+         "Eval vm_compute in (map fst (c_seq c), gate_run CacheNone current (tworld_of c) (map (rq_of c) (c_seq c))).\n" % t)
     ok, out, _ = vlib.coq_eval("C16p", [CHECK_MODULE, "Model.Acl", "Model.Jwt", "Model.Gate", "Model.SecStore"], q)
     return "(pinned variant, repaired variant): (outcome, route) per request; ACL store before / after restart\n" + out.strip()[-3000:]
 
@@ -493,7 +557,7 @@ def covers(g, n):
 
 
 def attribute(c, o):
-    if o.get("outcome") != "ok":
+    if o.get("outcome") != "ok" or c["kind"] == "seq":
         return None
     if c["kind"] == "persist":
         b, a = o.get("before"), o.get("after")
@@ -551,10 +615,19 @@ def attribute(c, o):
 
 
 def size(c):
+    if c["kind"] == "seq":
+        return 1000 + len(c["reqs"])
+    return _size(c)
+
+
+def _size(c):
     return len(c.get("acl") or []) * 10 + len(c.get("ops") or []) * 10 + len(c.get("reqs") or [])
 
 
 def classify(c, o):
+    if c["kind"] == "seq":
+        phs = [r.get("ph") for r in (o.get("res") or [])]
+        return "seq" if (0 in phs and 2 in phs) else None
     if c["kind"] == "list":
         return "list" if (c.get("acl") or c["token"] != TOKENS["valid"]) else None
     if c["kind"] == "persist":
@@ -566,6 +639,12 @@ def classify(c, o):
 
 
 def tags(c, o):
+    if c["kind"] == "seq":
+        res = o.get("res") or []
+        return ["family=seq", "boundary=%s" % c.get("bound"), "before=%d" % sum(1 for r in res if r.get("ph") == 0),
+                "after=%d" % sum(1 for r in res if r.get("ph") == 2), "ambiguous=%d" % sum(1 for r in res if r.get("ph") == 1),
+                "served-before=%d" % sum(1 for r in res if r.get("ph") == 0 and klass(r) == 0),
+                "served-after=%d" % sum(1 for r in res if r.get("ph") == 2 and klass(r) == 0)]
     if c["kind"] == "list":
         return ["family=list", "acl-entries=%d" % len(c.get("acl") or []), "status=%s" % o.get("listst"),
                 "listed=%d/%d" % (len(o.get("listed") or []), len(o.get("all") or [])),
